@@ -6,6 +6,7 @@ CONSTANTS
   KeepStatus = FALSE
   RecheckAtApply = TRUE
   RecheckISR = TRUE
+  KeepOnFail = FALSE
   CountAll = FALSE
 POSTCONDITION Done
 CHECK_DEADLOCK FALSE
